@@ -25,6 +25,7 @@ def spaces(tier):
             dict(family='chain3', size=3, level=0, cfg='K0', t0=['empty'], mut='outputs'),
             dict(family='if', size=2, level=0, cfg='K0', t0=['empty', 'file_i'], mut='rel'),
             dict(family='preobs', size=3, level=0, cfg='K0', t0=['empty', 'dir_d_j'], mut='rel'),
+            dict(family='args', size=1, level=0, cfg='K0', t0=['empty'], mut='outputs'),
         ]
     return [
         dict(family='observer', size=1, level=l, cfg=c, t0=list(gen.T0S), mut='all') for l in (0, 3) for c in ('K0', 'K1')
@@ -37,6 +38,9 @@ def spaces(tier):
     ] + [
         dict(family='if', size=2, level=0, cfg='K0', t0=list(gen.T0S), mut='all'),
         dict(family='preobs', size=3, level=0, cfg='K0', t0=list(gen.T0S), mut='all'),
+        dict(family='args', size=1, level=0, cfg='K0', t0=['empty', 'full'], mut='rel'),
+        dict(family='args', size=1, level=3, cfg='K0', t0=['empty'], mut='outputs'),
+        dict(family='args', size=2, level=0, cfg='K0', t0=['empty'], mut='outputs', kw=small),
     ]
 
 
